@@ -371,6 +371,7 @@ def run_check(modname: str, tier: str, replay_path: str | None = None) -> int:
 		if hasattr(mod, 'finish'):
 			mod.finish(merged, tier)
 
+		shrunk = 0
 		for sig, f in sorted(merged['failures'].items()):
 			k = match_known(known, sig)
 			if k is not None:
@@ -379,13 +380,21 @@ def run_check(modname: str, tier: str, replay_path: str | None = None) -> int:
 					known_lines.append(line)
 					print(line)
 				continue
-			if hasattr(mod, 'shrink'):
+			if hasattr(mod, 'shrink') and shrunk < getattr(mod, 'MAX_SHRINKS', 8):
+				shrunk += 1
 				try:
 					small = mod.shrink(f)
 					if small is not None:
 						f = small
 				except Exception:
 					traceback.print_exc()
+				k = match_known(known, f['sig'])  # the minimised case may turn out to be a listed finding
+				if k is not None:
+					line = f"KNOWN-FINDING: property={prop} {k['id']}: {k['description']} (x{f['count']} in campaign)"
+					if not any(l.startswith(f"KNOWN-FINDING: property={prop} {k['id']}:") for l in known_lines):
+						known_lines.append(line)
+						print(line)
+					continue
 			violations.append(f)
 
 	wall = time.time() - t0
